@@ -113,9 +113,10 @@ PROPS = {
         assumptions=['simulated MPI (vf/shim): Allgather/Alltoall as in the MPI standard'],
     ),
     'C04': dict(
-        level='other',
+        level='proof',
         contracts=[],
         functions=[],
+        case_functions=[dict(module='vf.contracts.grid', key='pygyro/model/grid.py::Grid')],
         bounded=[dict(module='vf.rt.bounded_layout', prop='C04',
                       bound='every sequence of length <= 5 (quick) / 6 (thorough) over {save, restore, free, write, 3 layouts} on a '
                             'single-process grid with save memory (length <= 3 without), plus seeded random sequences of 6-24 '
